@@ -35,6 +35,7 @@ func main() {
 			}
 		}
 	}
+	chk.FixtureDir = filepath.Join(*verif, "checker", "fixture")
 	seed, _ := strconv.ParseInt(os.Getenv("VERIF_SEED"), 10, 64)
 	t0 := time.Now()
 	fn, ok := chk.Registry[*prop]
